@@ -1,10 +1,920 @@
 /-
 Helper lemmas for `C05_filtered_eq_unfiltered_partial`: reading a file filtered by the citations
 versus reading it whole.
+
+Part 1 (specification level): the resolved list, up to the case of keys, depends on the
+database only through, for each cited key, the cross-reference of its entry and whether the
+target exists (`ViewEq`), and through the lower-cased key list when a wildcard is cited.
+Part 2 (model level): what the reader does, entry by entry, in both modes.
 -/
 import PybtexModel.Lemmas.Citations
 
 namespace Pybtex
 open Spec
+
+/-! ## Part 1 -/
+
+def xrefOf (db : SDb) (c : Str) : Option Str := (find db c).bind (·.crossref)
+def hasEntry (db : SDb) (x : Str) : Bool := (find db x).isSome
+
+/-- two databases look the same from citation `c` as far as resolution is concerned -/
+def ViewEq (A B : SDb) (c : Str) : Prop :=
+  xrefOf A c = xrefOf B c ∧ ∀ x, xrefOf A c = some x → hasEntry A x = hasEntry B x
+
+theorem find_key {db : SDb} {x : Str} {P : SEntry} (h : find db x = some P) : lower P.key = lower x := by
+  have := List.find?_some h
+  exact (keq_iff _ _).1 this
+
+theorem find_lower (db : SDb) (c : Str) : find db (lower c) = find db c := by
+  unfold find
+  congr 1
+  funext e
+  exact keq_lower_right _ _
+
+theorem parentOf_eq (db : SDb) (c : Str) : parentOf db c = (xrefOf db c).bind (find db) := by
+  unfold parentOf xrefOf
+  cases find db c <;> rfl
+
+theorem parentOf_lower (db : SDb) (c : Str) : parentOf db (lower c) = parentOf db c := by
+  unfold parentOf; rw [find_lower]
+
+theorem refers_lower (db : SDb) (p c : Str) : refers db p (lower c) = refers db p c := by
+  unfold refers; rw [parentOf_lower]
+
+theorem refCount_map_lower (db : SDb) (p : Str) (l : List Str) : refCount db p (l.map lower) = refCount db p l := by
+  induction l with
+  | nil => rfl
+  | cons c l ih =>
+    have : ∀ l', refCount db p (c :: l') = (if refers db p c then 1 else 0) + refCount db p l' := by
+      intro l'; simp only [refCount, List.filter_cons]; split <;> simp +arith
+    have h2 : ∀ l', refCount db p (lower c :: l') = (if refers db p c then 1 else 0) + refCount db p l' := by
+      intro l'; simp only [refCount, List.filter_cons, refers_lower]; split <;> simp +arith
+    rw [List.map_cons, h2, this, ih]
+
+theorem cited_map_lower (l : List Str) (k : Str) : cited (l.map lower) k = cited l k := by
+  unfold cited
+  rw [List.any_map]
+  congr 1
+  funext x
+  exact keq_lower_right _ _
+
+theorem extraFrom_lower (db : SDb) (m : Int) (L : List Str) :
+    ∀ (suf pre : List Str), extraFrom db m L pre suf =
+      extraFrom db m (L.map lower) (pre.map lower) (suf.map lower) := by
+  intro suf
+  induction suf with
+  | nil => intro pre; rfl
+  | cons c suf ih =>
+    intro pre
+    simp only [List.map_cons, extraFrom, parentOf_lower]
+    have hpre : pre.map lower ++ [lower c] = (pre ++ [c]).map lower := by simp
+    rw [hpre, ← ih (pre ++ [c])]
+    congr 1
+    cases parentOf db c with
+    | none => rfl
+    | some P => simp only [cited_map_lower, refCount_map_lower]
+
+theorem refers_congr_db {A B : SDb} {c : Str} (h : ViewEq A B c) (p : Str) : refers A p c = refers B p c := by
+  unfold refers
+  rw [parentOf_eq, parentOf_eq, ← h.1]
+  cases hx : xrefOf A c with
+  | none => rfl
+  | some x =>
+    have hh := h.2 x hx
+    simp only [Option.bind_some]
+    unfold hasEntry at hh
+    cases hA : find A x with
+    | none =>
+      rw [hA] at hh
+      cases hB : find B x with
+      | none => rfl
+      | some PB => rw [hB] at hh; cases hh
+    | some PA =>
+      rw [hA] at hh
+      cases hB : find B x with
+      | none => rw [hB] at hh; cases hh
+      | some PB =>
+        dsimp only
+        rw [keq_congr_left (find_key hA), keq_congr_left (find_key hB)]
+
+theorem refCount_congr_db {A B : SDb} {l : List Str} (h : ∀ c ∈ l, ViewEq A B c) (p : Str) :
+    refCount A p l = refCount B p l := by
+  unfold refCount
+  congr 1
+  apply List.filter_congr
+  intro c hc
+  exact refers_congr_db (h c hc) p
+
+theorem extraFrom_congr_db {A B : SDb} (m : Int) (L : List Str) :
+    ∀ (suf pre : List Str), (∀ c ∈ pre ++ suf, ViewEq A B c) →
+      (extraFrom A m L pre suf).map lower = (extraFrom B m L pre suf).map lower := by
+  intro suf
+  induction suf with
+  | nil => intro pre _; rfl
+  | cons c suf ih =>
+    intro pre h
+    have hassoc : pre ++ c :: suf = (pre ++ [c]) ++ suf := by simp
+    simp only [extraFrom, List.map_append]
+    rw [ih (pre ++ [c]) (by rw [← hassoc]; exact h)]
+    congr 1
+    have hc : ViewEq A B c := h c (by simp)
+    have hpre : ∀ c' ∈ pre ++ [c], ViewEq A B c' := by
+      intro c' hc'; apply h; rw [hassoc]; exact List.mem_append_left _ hc'
+    rw [parentOf_eq, parentOf_eq, ← hc.1]
+    cases hx : xrefOf A c with
+    | none => rfl
+    | some x =>
+      have hh := hc.2 x hx
+      simp only [Option.bind_some]
+      unfold hasEntry at hh
+      cases hA : find A x with
+      | none =>
+        rw [hA] at hh
+        cases hB : find B x with
+        | none => rfl
+        | some PB => rw [hB] at hh; cases hh
+      | some PA =>
+        rw [hA] at hh
+        cases hB : find B x with
+        | none => rw [hB] at hh; cases hh
+        | some PB =>
+          dsimp only
+          have hk : lower PA.key = lower PB.key := by rw [find_key hA, find_key hB]
+          rw [cited_congr hk, refCount_congr hk, refCount_congr_db hpre]
+          split
+          · simp [hk]
+          · rfl
+
+/-- lower-casing both components of a reported dangling reference -/
+def low2 (p : Str × Str) : Str × Str := (lower p.1, lower p.2)
+
+theorem danglingAt_eq (db : SDb) (c : Str) :
+    danglingAt db c = (xrefOf db c).bind fun x => if hasEntry db x then none else some (c, x) := by
+  unfold danglingAt xrefOf hasEntry
+  cases find db c with
+  | none => rfl
+  | some e =>
+    simp only [Option.bind_some]
+    cases e.crossref with
+    | none => rfl
+    | some x =>
+      simp only [Option.bind_some]
+      cases find db x <;> rfl
+
+theorem xrefOf_lower (db : SDb) (c : Str) : xrefOf db (lower c) = xrefOf db c := by
+  unfold xrefOf; rw [find_lower]
+
+theorem dangling_lower (db : SDb) (L : List Str) :
+    (dangling db L).map low2 = (dangling db (L.map lower)).map low2 := by
+  induction L with
+  | nil => rfl
+  | cons c L ih =>
+    simp only [dangling_eq, List.map_cons, List.filterMap_cons, danglingAt_eq, xrefOf_lower] at ih ⊢
+    cases xrefOf db c with
+    | none => exact ih
+    | some x =>
+      simp only [Option.bind_some]
+      cases hasEntry db x with
+      | true => exact ih
+      | false =>
+        simp only [Bool.false_eq_true, if_false, List.map_cons, low2, lower_idem]
+        rw [ih]
+
+theorem dangling_congr_db {A B : SDb} {L : List Str} (h : ∀ c ∈ L, ViewEq A B c) : dangling A L = dangling B L := by
+  simp only [dangling_eq]
+  induction L with
+  | nil => rfl
+  | cons c L ih =>
+    have hc := h c (by simp)
+    have : danglingAt A c = danglingAt B c := by
+      rw [danglingAt_eq, danglingAt_eq, ← hc.1]
+      cases hx : xrefOf A c with
+      | none => rfl
+      | some x => simp only [Option.bind_some, hc.2 x hx]
+    simp only [List.filterMap_cons, this, ih (fun c hc => h c (List.mem_cons_of_mem _ hc))]
+
+theorem ViewEq_lower {A B : SDb} {c : Str} (h : ViewEq A B c) : ViewEq A B (lower c) := by
+  unfold ViewEq at *
+  rw [xrefOf_lower, xrefOf_lower]
+  exact h
+
+theorem ViewEq_congr {A B : SDb} {c c' : Str} (hc : lower c = lower c') (h : ViewEq A B c) : ViewEq A B c' := by
+  have h1 := ViewEq_lower h
+  rw [hc] at h1
+  unfold ViewEq at *
+  rw [xrefOf_lower, xrefOf_lower] at h1
+  exact h1
+
+theorem dedupFrom_lower_congr :
+    ∀ (l l' seen seen' : List Str), l.map lower = l'.map lower → (∀ k, seen.any (keq k) = seen'.any (keq k)) →
+      (dedupFrom seen l).map lower = (dedupFrom seen' l').map lower := by
+  intro l
+  induction l with
+  | nil =>
+    intro l' seen seen' hl _
+    cases l' with
+    | nil => rfl
+    | cons _ _ => simp at hl
+  | cons k l ih =>
+    intro l' seen seen' hl hs
+    cases l' with
+    | nil => simp at hl
+    | cons k' l' =>
+      simp only [List.map_cons, List.cons.injEq] at hl
+      obtain ⟨hk, hl⟩ := hl
+      have h1 : seen.any (keq k) = seen'.any (keq k') := by rw [hs k, any_keq_congr hk]
+      simp only [dedupFrom, h1]
+      split
+      · exact ih l' seen seen' hl hs
+      · simp only [List.map_cons, hk]
+        congr 1
+        apply ih l' _ _ hl
+        intro q
+        simp only [List.any_cons, hs q, keq_congr_right q hk]
+
+/-- The resolved list and the reported dangling references, up to the case of keys, are the
+same for two databases that (a) give lower-equal cited lists and (b) look the same from every
+cited key. -/
+theorem resolve_congr (A B : SDb) (cits : List Str) (m : Int)
+    (hs : (substStar A cits).map lower = (substStar B cits).map lower)
+    (hv : ∀ c, cited (expanded A cits) c = true → ViewEq A B c) :
+    (resolved A cits m).map lower = (resolved B cits m).map lower ∧
+    (dangling A (expanded A cits)).map low2 = (dangling B (expanded B cits)).map low2 := by
+  have hL : (expanded A cits).map lower = (expanded B cits).map lower :=
+    dedupFrom_lower_congr _ _ [] [] hs (fun _ => rfl)
+  have hmem : ∀ c ∈ (expanded A cits).map lower, ViewEq A B c := by
+    intro c hc
+    obtain ⟨c0, hc0, rfl⟩ := List.mem_map.1 hc
+    apply ViewEq_lower
+    apply hv
+    exact List.any_eq_true.2 ⟨c0, hc0, keq_refl _⟩
+  constructor
+  · unfold resolved
+    rw [List.map_append, List.map_append, hL]
+    congr 1
+    unfold extra
+    rw [extraFrom_lower A, extraFrom_lower B, ← hL]
+    exact extraFrom_congr_db m _ _ [] (by simpa using hmem)
+  · rw [dangling_lower A, dangling_lower B, ← hL, dangling_congr_db hmem]
+
+/-! ## Part 2: the reader, entry by entry -/
+
+/-- reader invariant: the database is well formed and the citation set satisfies its C13 invariant -/
+structure RInv (d : BibData) : Prop where
+  wf : DbWF d
+  cit : CISet.Inv d.citations
+
+theorem RInv.init (w : Option (List Str)) : RInv (BibData.init w) := ⟨DbWF.init w, init_citations_inv w⟩
+
+theorem canonical_lower {s : CISet} (h : CISet.Inv s) {k ck : Str} (hc : s.canonical k = some ck) :
+    lower ck = lower k := by
+  have := h.2.2 _ (dget_mem hc)
+  exact this.symm
+
+theorem getItem_setItem {V : Type} (d : CIDict V) (ck k : Str) (v : V) :
+    (d.setItem ck v).getItem k = if lower k = lower ck then some v else d.getItem k := by
+  simp only [CIDict.getItem, CIDict.setItem]
+  by_cases h : lower k = lower ck
+  · rw [if_pos h, h, dget_dset_same]
+  · rw [if_neg h, dget_dset_ne _ _ _ _ h]
+
+theorem wantEntry_congr (d : BibData) {k k' : Str} (h : lower k = lower k') : d.wantEntry k = d.wantEntry k' := by
+  unfold BibData.wantEntry
+  cases d.wanted with
+  | none => rfl
+  | some w => simp [CISet.contains, h]
+
+theorem contains_isSome {V : Type} (d : CIDict V) (k : Str) : d.contains k = (d.getItem k).isSome := rfl
+
+/-- the wanted set after an entry with fields `e.fields` has been added -/
+def wantedAfter (w : Option CISet) (e : Entry) : Option CISet :=
+  w.map fun w => match e.fields.getItem Pybtex.xrefName with | some x => w.add x | none => w
+
+/-- effect of reading one entry `(key, e)` in state `d` -/
+inductive ReadStep (d : BibData) (key : Str) (e : Entry) (d1 : BibData) : Prop
+  | skip (h : d1 = d) (hw : d.wantEntry key = false ∨ d.entries.contains key = true)
+  | add (ck : Str) (hck : lower ck = lower key) (hw : d.wantEntry key = true) (hc : d.entries.contains key = false)
+      (hget : ∀ k, d1.entries.getItem k = if lower k = lower key then some { e with key := ck } else d.entries.getItem k)
+      (hkeys : d1.entries.dict.map Prod.fst = d.entries.dict.map Prod.fst ++ [lower key])
+      (hwant : d1.wanted = wantedAfter d.wanted e)
+
+theorem addEntry_step {d d1 : BibData} (h : RInv d) {key : Str} {e : Entry} {rep : List Report}
+    (hp : d.addEntry key e = some (d1, rep)) : ReadStep d key e d1 := by
+  unfold BibData.addEntry at hp
+  split at hp
+  · rename_i hw
+    cases hp
+    exact .skip rfl (Or.inl (by simpa using hw))
+  · rename_i hw
+    split at hp
+    · rename_i hc
+      cases hp
+      exact .skip rfl (Or.inr hc)
+    · rename_i hc
+      cases hck : d.getCanonicalKey key with
+      | none => simp [hck] at hp
+      | some ck =>
+        have hlow : lower ck = lower key := by
+          unfold BibData.getCanonicalKey at hck
+          split at hck
+          · exact canonical_lower h.cit hck
+          · cases hck; rfl
+        have hnot : lower ck ∉ d.entries.dict.map Prod.fst := by
+          rw [hlow]
+          intro hm
+          exact hc ((dhas_iff_mem _ _).2 hm)
+        have hget : ∀ k, (d.entries.setItem ck { e with key := ck }).getItem k =
+            if lower k = lower key then some { e with key := ck } else d.entries.getItem k := by
+          intro k; rw [getItem_setItem, hlow]
+        have hkeys : (d.entries.setItem ck { e with key := ck }).dict.map Prod.fst =
+            d.entries.dict.map Prod.fst ++ [lower key] := by
+          simp only [CIDict.setItem]
+          rw [dset_of_not_mem _ _ _ hnot, hlow]
+          simp
+        simp only [hck] at hp
+        have hw' : d.wantEntry key = true := by simpa using hw
+        have hc' : d.entries.contains key = false := by simpa using hc
+        split at hp
+        · rename_i hx
+          cases hp
+          refine .add ck hlow hw' hc' hget hkeys ?_
+          change d.wanted = _
+          unfold wantedAfter
+          rw [show e.fields.getItem Pybtex.xrefName = none from hx]
+          cases d.wanted <;> rfl
+        · rename_i x hx
+          split at hp
+          · rename_i hwn
+            cases hp
+            refine .add ck hlow hw' hc' hget hkeys ?_
+            change d.wanted = _
+            have : d.wanted = none := hwn
+            rw [this]; rfl
+          · rename_i w hwn
+            cases hp
+            refine .add ck hlow hw' hc' hget hkeys ?_
+            change some (w.add x) = _
+            have : d.wanted = some w := hwn
+            unfold wantedAfter
+            rw [this, show e.fields.getItem Pybtex.xrefName = some x from hx]
+            rfl
+
+theorem parseEntry_step {d d1 : BibData} (h : RInv d) {key : Str} {e : Entry} {rep : List Report}
+    (hp : d.parseEntry key e = some (d1, rep)) : ReadStep d key e d1 := by
+  unfold BibData.parseEntry at hp
+  split at hp
+  · rename_i hw
+    cases hp
+    exact .skip rfl (Or.inl (by simpa using hw))
+  · exact addEntry_step h hp
+
+theorem wantEntry_after {d : BibData} {e : Entry} {w' : Option CISet} (hw : w' = wantedAfter d.wanted e)
+    {d1 : BibData} (h1 : d1.wanted = w') {k : Str} (hk : d.wantEntry k = true) : d1.wantEntry k = true := by
+  unfold BibData.wantEntry at hk ⊢
+  rw [h1, hw]
+  unfold wantedAfter
+  cases hd : d.wanted with
+  | none => rfl
+  | some w =>
+    rw [hd] at hk
+    simp only [Option.map_some]
+    cases e.fields.getItem Pybtex.xrefName with
+    | none => exact hk
+    | some x =>
+      simp only [contains_add]
+      simp only [Bool.or_eq_true] at hk ⊢
+      rcases hk with hk | hk
+      · exact Or.inl (Or.inr hk)
+      · exact Or.inr (Or.inr hk)
+
+theorem ReadStep.want_mono {d d1 : BibData} {key : Str} {e : Entry} (s : ReadStep d key e d1) {k : Str}
+    (hk : d.wantEntry k = true) : d1.wantEntry k = true := by
+  cases s with
+  | skip h _ => rw [h]; exact hk
+  | add ck _ _ _ _ _ hwant => exact wantEntry_after rfl hwant hk
+
+theorem ReadStep.get_mono {d d1 : BibData} {key : Str} {e : Entry} (s : ReadStep d key e d1) {k : Str} {e0 : Entry}
+    (hk : d.entries.getItem k = some e0) : d1.entries.getItem k = some e0 := by
+  cases s with
+  | skip h _ => rw [h]; exact hk
+  | add ck _ _ hc hget _ _ =>
+    rw [hget k]
+    split
+    · rename_i hl
+      rw [contains_isSome, ← getItem_lower_congr _ hl, hk] at hc
+      cases hc
+    · exact hk
+
+/-- the first entry of the file whose key is `k` (up to case) -/
+def firstOcc (file : List (Str × Entry)) (k : Str) : Option (Str × Entry) := file.find? fun p => keq p.1 k
+
+/-- unfolding `readEntries` one entry -/
+theorem readEntries_cons {d d' : BibData} {key : Str} {e : Entry} {file : List (Str × Entry)} {rep : List Report}
+    (h : d.readEntries ((key, e) :: file) = some (d', rep)) :
+    ∃ d1 rep1 rep2, d.parseEntry key e = some (d1, rep1) ∧ d1.readEntries file = some (d', rep2) := by
+  simp only [BibData.readEntries] at h
+  cases h1 : d.parseEntry key e with
+  | none => simp [h1] at h
+  | some r1 =>
+    obtain ⟨d1, rep1⟩ := r1
+    simp only [h1] at h
+    cases h2 : d1.readEntries file with
+    | none => simp [h2] at h
+    | some r2 =>
+      obtain ⟨d2, rep2⟩ := r2
+      simp only [h2, Option.some.injEq, Prod.mk.injEq] at h
+      obtain ⟨rfl, -⟩ := h
+      exact ⟨d1, rep1, rep2, rfl, h2⟩
+
+theorem RInv.step {d d1 : BibData} (h : RInv d) {key : Str} {e : Entry} (he : EntryWF e) {rep : List Report}
+    (hp : d.parseEntry key e = some (d1, rep)) : RInv d1 := by
+  obtain ⟨d', rep', h', hw, hc⟩ := parseEntry_spec h.wf h.cit key he
+  rw [hp] at h'
+  cases h'
+  exact ⟨hw, hc ▸ h.cit⟩
+
+/-- Lemma G: a key that is wanted from the start ends up with the fields of the first entry of
+the file that has that key (or keeps the entry it already had). -/
+theorem read_wanted (file : List (Str × Entry)) (hf : ∀ p ∈ file, EntryWF p.2) :
+    ∀ {d d' : BibData} {rep : List Report}, RInv d → d.readEntries file = some (d', rep) →
+      ∀ k, d.wantEntry k = true →
+        (d'.entries.getItem k).map (·.fields) =
+          match d.entries.getItem k with
+          | some e => some e.fields
+          | none => (firstOcc file k).map (·.2.fields) := by
+  induction file with
+  | nil =>
+    intro d d' rep _ h k _
+    simp only [BibData.readEntries] at h
+    cases h
+    cases d.entries.getItem k <;> rfl
+  | cons p file ih =>
+    intro d d' rep hd h k hk
+    obtain ⟨key, e⟩ := p
+    obtain ⟨d1, rep1, rep2, h1, h2⟩ := readEntries_cons h
+    have hs := parseEntry_step hd h1
+    have hd1 := hd.step (hf (key, e) (by simp)) h1
+    have := ih (fun p hp => hf p (List.mem_cons_of_mem _ hp)) hd1 h2 k (hs.want_mono hk)
+    rw [this]
+    cases hg : d.entries.getItem k with
+    | some e0 => rw [hs.get_mono hg]
+    | none =>
+      dsimp only
+      simp only [firstOcc, List.find?_cons]
+      by_cases hkk : keq key k = true
+      · have hl := (keq_iff _ _).1 hkk
+        rw [hkk]
+        cases hs with
+        | skip _ hw =>
+          rcases hw with hw | hw
+          · rw [wantEntry_congr d hl, hk] at hw; cases hw
+          · rw [contains_isSome, getItem_lower_congr _ hl, hg] at hw; cases hw
+        | add ck _ _ _ hget _ _ =>
+          rw [hget k, if_pos hl.symm]
+          rfl
+      · have hkk' : keq key k = false := by simpa using hkk
+        rw [hkk']
+        have hne : ¬ lower k = lower key := fun h' => hkk ((keq_iff _ _).2 h'.symm)
+        cases hs with
+        | skip h' _ => rw [h', hg]
+        | add ck _ _ _ hget _ _ => rw [hget k, if_neg hne, hg]
+
+/-- Lemma H: whatever is in the database at the end was there before or has an entry in the file. -/
+theorem read_has (file : List (Str × Entry)) (hf : ∀ p ∈ file, EntryWF p.2) :
+    ∀ {d d' : BibData} {rep : List Report}, RInv d → d.readEntries file = some (d', rep) →
+      ∀ k, (d'.entries.getItem k).isSome = true →
+        (d.entries.getItem k).isSome = true ∨ (firstOcc file k).isSome = true := by
+  induction file with
+  | nil =>
+    intro d d' rep _ h k hk
+    simp only [BibData.readEntries] at h
+    cases h
+    exact Or.inl hk
+  | cons p file ih =>
+    intro d d' rep hd h k hk
+    obtain ⟨key, e⟩ := p
+    obtain ⟨d1, rep1, rep2, h1, h2⟩ := readEntries_cons h
+    have hs := parseEntry_step hd h1
+    have hd1 := hd.step (hf (key, e) (by simp)) h1
+    simp only [firstOcc, List.find?_cons]
+    rcases ih (fun p hp => hf p (List.mem_cons_of_mem _ hp)) hd1 h2 k hk with h' | h'
+    · cases hs with
+      | skip hh _ => rw [hh] at h'; exact Or.inl h'
+      | add ck _ _ _ hget _ _ =>
+        rw [hget k] at h'
+        by_cases hl : lower k = lower key
+        · right
+          have : keq key k = true := (keq_iff _ _).2 hl.symm
+          simp [this]
+        · rw [if_neg hl] at h'; exact Or.inl h'
+    · right
+      cases hkk : keq key k with
+      | true => simp
+      | false => exact h'
+
+/-- Lemma M: entries and wanted keys only accumulate. -/
+theorem read_mono (file : List (Str × Entry)) (hf : ∀ p ∈ file, EntryWF p.2) :
+    ∀ {d d' : BibData} {rep : List Report}, RInv d → d.readEntries file = some (d', rep) →
+      RInv d' ∧
+      (∀ k e0, d.entries.getItem k = some e0 → d'.entries.getItem k = some e0) ∧
+      (∀ k, d.wantEntry k = true → d'.wantEntry k = true) := by
+  induction file with
+  | nil =>
+    intro d d' rep hd h
+    simp only [BibData.readEntries] at h
+    cases h
+    exact ⟨hd, fun _ _ h => h, fun _ h => h⟩
+  | cons p file ih =>
+    intro d d' rep hd h
+    obtain ⟨key, e⟩ := p
+    obtain ⟨d1, rep1, rep2, h1, h2⟩ := readEntries_cons h
+    have hs := parseEntry_step hd h1
+    have hd1 := hd.step (hf (key, e) (by simp)) h1
+    obtain ⟨hr, hg, hw⟩ := ih (fun p hp => hf p (List.mem_cons_of_mem _ hp)) hd1 h2
+    exact ⟨hr, fun k e0 hk => hg k e0 (hs.get_mono hk), fun k hk => hw k (hs.want_mono hk)⟩
+
+/-- appending the keys not seen yet, in order -/
+def addKeys (ks : List Str) (l : List Str) : List Str :=
+  l.foldl (fun ks k => if ks.contains k then ks else ks ++ [k]) ks
+
+/-- Lemma K: when every key is wanted (unfiltered reading, or a wildcard among the citations)
+the lower-cased keys of the database are a function of the file alone. -/
+theorem read_keys (file : List (Str × Entry)) (hf : ∀ p ∈ file, EntryWF p.2) :
+    ∀ {d d' : BibData} {rep : List Report}, RInv d → d.readEntries file = some (d', rep) →
+      (∀ k, d.wantEntry k = true) →
+      d'.entries.dict.map Prod.fst = addKeys (d.entries.dict.map Prod.fst) (file.map fun p => lower p.1) := by
+  induction file with
+  | nil =>
+    intro d d' rep _ h _
+    simp only [BibData.readEntries] at h
+    cases h
+    rfl
+  | cons p file ih =>
+    intro d d' rep hd h hall
+    obtain ⟨key, e⟩ := p
+    obtain ⟨d1, rep1, rep2, h1, h2⟩ := readEntries_cons h
+    have hs := parseEntry_step hd h1
+    have hd1 := hd.step (hf (key, e) (by simp)) h1
+    rw [ih (fun p hp => hf p (List.mem_cons_of_mem _ hp)) hd1 h2 (fun k => hs.want_mono (hall k))]
+    simp only [List.map_cons, addKeys, List.foldl_cons]
+    congr 1
+    cases hs with
+    | skip h' hw =>
+      rcases hw with hw | hw
+      · rw [hall key] at hw; cases hw
+      · have : (d.entries.dict.map Prod.fst).contains (lower key) = true := by
+          simpa using (dhas_iff_mem _ _).1 hw
+        rw [h', if_pos this]
+    | add ck _ _ hc _ hkeys _ =>
+      have : ¬ (d.entries.dict.map Prod.fst).contains (lower key) = true := by
+        intro hm
+        have := (dhas_iff_mem d.entries.dict (lower key)).2 (by simpa using hm)
+        rw [CIDict.contains, this] at hc
+        cases hc
+      rw [hkeys, if_neg this]
+
+theorem readEntries_append (a b : List (Str × Entry)) :
+    ∀ {d d' : BibData} {rep : List Report}, d.readEntries (a ++ b) = some (d', rep) →
+      ∃ d1 r1 r2, d.readEntries a = some (d1, r1) ∧ d1.readEntries b = some (d', r2) := by
+  induction a with
+  | nil => intro d d' rep h; exact ⟨d, [], rep, rfl, h⟩
+  | cons p a ih =>
+    intro d d' rep h
+    obtain ⟨key, e⟩ := p
+    obtain ⟨d1, rep1, rep2, h1, h2⟩ := readEntries_cons (file := a ++ b) h
+    obtain ⟨d2, r1, r2, h3, h4⟩ := ih h2
+    refine ⟨d2, rep1 ++ r1, r2, ?_, h4⟩
+    simp [BibData.readEntries, h1, h3]
+
+theorem laterOccurs_split {l : List Str} {x : Str} :
+    ∀ {file : List SEntry} {seen : List Str}, laterOccurs l x seen file = true →
+      ∃ f1 e f2, file = f1 ++ e :: f2 ∧ (∀ q ∈ f1, keq q.key e.key = false) ∧ seen.any (keq e.key) = false ∧
+        cited l e.key = true ∧ (∃ y, e.crossref = some y ∧ keq y x = true) ∧
+        (f2.any fun q => keq q.key x) = true := by
+  intro file
+  induction file with
+  | nil => intro seen h; simp [laterOccurs] at h
+  | cons e r ih =>
+    intro seen h
+    simp only [laterOccurs, Bool.or_eq_true, Bool.and_eq_true] at h
+    rcases h with ⟨⟨⟨h1, h2⟩, h3⟩, h4⟩ | h
+    · refine ⟨[], e, r, rfl, by simp, by simpa using h1, h2, ?_, h4⟩
+      cases hx : e.crossref with
+      | none => simp [hx] at h3
+      | some y => exact ⟨y, rfl, by simpa [hx] using h3⟩
+    · obtain ⟨f1, e', f2, hr, hf1, hseen, hc, hy, hocc⟩ := ih h
+      rw [List.any_cons, Bool.or_eq_false_iff] at hseen
+      refine ⟨e :: f1, e', f2, by rw [hr]; rfl, ?_, hseen.2, hc, hy, hocc⟩
+      intro q hq
+      rcases List.mem_cons.1 hq with rfl | hq
+      · rw [keq_comm]; exact hseen.1
+      · exact hf1 q hq
+
+/-- Lemma P: once the (first, hence effective) entry of a wanted key `p.1` that cross-references
+`y` has been read, an entry with key `y` that comes later in the file is read too. -/
+theorem read_later {file : List (Str × Entry)} (hf : ∀ p ∈ file, EntryWF p.2) {d d' : BibData} {rep : List Report}
+    (hd : RInv d) (h : d.readEntries file = some (d', rep))
+    {g1 g2 : List (Str × Entry)} {p : Str × Entry} (hfile : file = g1 ++ p :: g2)
+    (hfirst : ∀ q ∈ g1, keq q.1 p.1 = false) (hnone : d.entries.getItem p.1 = none)
+    (hw : d.wantEntry p.1 = true) {y x : Str} (hy : p.2.fields.getItem Pybtex.xrefName = some y)
+    (hyx : keq y x = true) (hocc : (firstOcc g2 x).isSome = true) :
+    (d'.entries.getItem x).isSome = true := by
+  subst hfile
+  obtain ⟨da, r1, r2, ha, hrest⟩ := readEntries_append g1 (p :: g2) h
+  obtain ⟨key, e⟩ := p
+  obtain ⟨db, r3, r4, hb, hg2⟩ := readEntries_cons hrest
+  have hf1 : ∀ q ∈ g1, EntryWF q.2 := fun q hq => hf q (List.mem_append_left _ hq)
+  have hf2 : ∀ q ∈ g2, EntryWF q.2 := fun q hq => hf q (List.mem_append_right _ (List.mem_cons_of_mem _ hq))
+  have he : EntryWF e := hf (key, e) (List.mem_append_right _ (by simp))
+  obtain ⟨hda, -, hwa⟩ := read_mono g1 hf1 hd ha
+  have hna : da.entries.getItem key = none := by
+    cases hg : da.entries.getItem key with
+    | none => rfl
+    | some e0 =>
+      rcases read_has g1 hf1 hd ha key (by simp [hg]) with h' | h'
+      · simp only at hnone; rw [hnone] at h'; cases h'
+      · have : firstOcc g1 key = none := by
+          simp only [firstOcc, List.find?_eq_none]
+          intro q hq
+          simpa using hfirst q hq
+        rw [this] at h'; cases h'
+  have hdb := hda.step he hb
+  have hwx : db.wantEntry x = true := by
+    cases parseEntry_step hda hb with
+    | skip _ hw' =>
+      rcases hw' with hw' | hw'
+      · rw [hwa key hw] at hw'; cases hw'
+      · rw [contains_isSome, hna] at hw'; cases hw'
+    | add ck _ _ _ _ _ hwant =>
+      unfold BibData.wantEntry
+      rw [hwant]
+      unfold wantedAfter
+      cases da.wanted with
+      | none => rfl
+      | some w =>
+        simp only [Option.map_some]
+        rw [show e.fields.getItem Pybtex.xrefName = some y from hy]
+        simp only [contains_add]
+        rw [keq_comm, hyx]
+        rfl
+  have := read_wanted g2 hf2 hdb hg2 x hwx
+  cases hgx : db.entries.getItem x with
+  | some e0 =>
+    rw [hgx] at this
+    cases hd' : d'.entries.getItem x with
+    | none => rw [hd'] at this; cases this
+    | some _ => rfl
+  | none =>
+    rw [hgx] at this
+    dsimp only at this
+    cases hd' : d'.entries.getItem x with
+    | some _ => rfl
+    | none =>
+      rw [hd'] at this
+      cases hfo : firstOcc g2 x with
+      | none => rw [hfo] at hocc; cases hocc
+      | some _ => rw [hfo] at this; cases this
+
+/-! ## Assembly -/
+
+/-- lower-casing the keys in a report -/
+def Report.lower : Report → Report
+  | .repeated k => .repeated (Pybtex.lower k)
+  | .badCrossref k x => .badCrossref (Pybtex.lower k) (Pybtex.lower x)
+  | .missingEntry k => .missingEntry (Pybtex.lower k)
+
+theorem xrefOf_toS {db : BibData} (hdb : DbWF db) (c : Str) :
+    xrefOf db.toS c = (db.entries.getItem c).bind fun e => e.fields.getItem Pybtex.xrefName := by
+  unfold xrefOf
+  rw [← getItem_entries hdb c]
+  cases hg : db.entries.getItem c with
+  | none => rfl
+  | some e =>
+    obtain ⟨hwe, -⟩ := getItem_entries_wf hdb hg
+    simp only [Option.map_some, Option.bind_some]
+    exact (Entry.crossref_toS hwe).symm
+
+theorem has_toS {db : BibData} (hdb : DbWF db) (x : Str) : hasEntry db.toS x = (db.entries.getItem x).isSome := by
+  unfold hasEntry
+  rw [← getItem_entries hdb x]
+  cases db.entries.getItem x <;> rfl
+
+theorem bind_of_map_fields {o : Option Entry} {o' : Option (Str × Entry)}
+    (h : o.map (·.fields) = o'.map (·.2.fields)) :
+    (o.bind fun e => e.fields.getItem Pybtex.xrefName) = (o'.bind fun p => p.2.fields.getItem Pybtex.xrefName) ∧
+    o.isSome = o'.isSome := by
+  cases o with
+  | none => cases o' with
+    | none => exact ⟨rfl, rfl⟩
+    | some _ => cases h
+  | some e => cases o' with
+    | none => cases h
+    | some p =>
+      simp only [Option.map_some, Option.some.injEq] at h
+      simp [h]
+
+theorem init_getItem (w : Option (List Str)) (k : Str) : (BibData.init w).entries.getItem k = none := by
+  cases w <;> rfl
+
+theorem init_want_none (k : Str) : (BibData.init none).wantEntry k = true := rfl
+
+theorem init_want_some (cits : List Str) (k : Str) :
+    (BibData.init (some cits)).wantEntry k = (cited cits k || cited cits Pybtex.star) := by
+  simp only [BibData.init, BibData.wantEntry, contains_ofList]
+
+theorem keys_lower_toS {db : BibData} (hdb : DbWF db) : (keys db.toS).map lower = db.entries.dict.map Prod.fst := by
+  rw [← iter_entries hdb, CIDict.iter]
+  rw [List.map_map]
+  have h3 := hdb.inv.2.2
+  have : (db.entries.keys.map (lower ∘ Prod.snd)) = db.entries.keys.map Prod.fst := by
+    apply List.map_congr_left
+    intro t ht
+    exact (h3 t ht).symm
+  rw [this]
+  exact hdb.inv.1.symm
+
+theorem substStar_noStar {db : SDb} {cits : List Str} (h : Spec.star ∉ cits) : substStar db cits = cits := by
+  induction cits with
+  | nil => rfl
+  | cons c r ih =>
+    simp only [List.mem_cons, not_or] at h
+    rw [substStar_cons, if_neg (fun hc => h.1 hc.symm), ih h.2]
+    rfl
+
+theorem substStar_lower_congr {A B : SDb} (h : (keys A).map lower = (keys B).map lower) (cits : List Str) :
+    (substStar A cits).map lower = (substStar B cits).map lower := by
+  induction cits with
+  | nil => rfl
+  | cons c r ih =>
+    rw [substStar_cons, substStar_cons, List.map_append, List.map_append, ih]
+    congr 1
+    split
+    · exact h
+    · rfl
+
+theorem find_map_rawToS (file : List (Str × Entry)) (c : Str) :
+    (file.map rawToS).find? (fun e => keq e.key c) = (firstOcc file c).map rawToS := by
+  unfold firstOcc
+  induction file with
+  | nil => rfl
+  | cons p file ih =>
+    simp only [List.map_cons, List.find?_cons]
+    have : keq (rawToS p).key c = keq p.1 c := rfl
+    rw [this]
+    cases keq p.1 c with
+    | true => rfl
+    | false => exact ih
+
+theorem any_map_rawToS (file : List (Str × Entry)) (x : Str) :
+    (file.map rawToS).any (fun q => keq q.key x) = (firstOcc file x).isSome := by
+  unfold firstOcc
+  induction file with
+  | nil => rfl
+  | cons p file ih =>
+    simp only [List.map_cons, List.any_cons, List.find?_cons]
+    have : keq (rawToS p).key x = keq p.1 x := rfl
+    rw [this]
+    cases keq p.1 x with
+    | true => rfl
+    | false => simpa using ih
+
+theorem firstOcc_congr (file : List (Str × Entry)) {c c' : Str} (h : lower c = lower c') : firstOcc file c = firstOcc file c' := by
+  unfold firstOcc
+  congr 1
+  funext p
+  exact keq_congr_right _ h
+
+theorem rawToS_crossref {p : Str × Entry} (h : EntryWF p.2) : (rawToS p).crossref = p.2.fields.getItem Pybtex.xrefName :=
+  (Entry.crossref_toS h).symm
+
+/-- Reading filtered by the citations, then resolving, gives the same as reading everything,
+then resolving — up to the case of keys — under the ordering proviso. -/
+theorem filtered_eq_unfiltered (file : List (Str × Entry)) (hf : ∀ p ∈ file, EntryWF p.2)
+    (cits : List Str) (m : Int) (hprov : proviso (file.map rawToS) cits = true) :
+    ∃ U repU F repF, BibData.readFile none file = some (U, repU) ∧
+      BibData.readFile (some cits) file = some (F, repF) ∧
+      (F.addExtraCitations cits m).1.map lower = (U.addExtraCitations cits m).1.map lower ∧
+      (F.addExtraCitations cits m).2.map Report.lower = (U.addExtraCitations cits m).2.map Report.lower := by
+  obtain ⟨U, repU, hU, hUwf, -⟩ := readFile_spec none file hf
+  obtain ⟨F, repF, hF, hFwf, -⟩ := readFile_spec (some cits) file hf
+  refine ⟨U, repU, F, repF, hU, hF, ?_⟩
+  -- what the two databases hold
+  have hUget : ∀ k, (U.entries.getItem k).map (·.fields) = (firstOcc file k).map (·.2.fields) := by
+    intro k
+    have := read_wanted file hf (RInv.init none) hU k (init_want_none k)
+    rw [init_getItem] at this
+    exact this
+  have hFget : ∀ k, (BibData.init (some cits)).wantEntry k = true →
+      (F.entries.getItem k).map (·.fields) = (firstOcc file k).map (·.2.fields) := by
+    intro k hk
+    have := read_wanted file hf (RInv.init (some cits)) hF k hk
+    rw [init_getItem] at this
+    exact this
+  have hview : ∀ c, (BibData.init (some cits)).wantEntry c = true →
+      xrefOf F.toS c = xrefOf U.toS c := by
+    intro c hc
+    rw [xrefOf_toS hFwf, xrefOf_toS hUwf, (bind_of_map_fields (hFget c hc)).1, (bind_of_map_fields (hUget c)).1]
+  have hhasU : ∀ x, hasEntry U.toS x = (firstOcc file x).isSome := by
+    intro x; rw [has_toS hUwf, (bind_of_map_fields (hUget x)).2]
+  have hres : (resolved F.toS cits m).map lower = (resolved U.toS cits m).map lower ∧
+      (dangling F.toS (expanded F.toS cits)).map low2 = (dangling U.toS (expanded U.toS cits)).map low2 := by
+    by_cases hstar : cited cits Pybtex.star = true
+    · -- a wildcard: every entry is wanted
+      have hall : ∀ k, (BibData.init (some cits)).wantEntry k = true := by
+        intro k; rw [init_want_some, hstar]; simp
+      apply resolve_congr
+      · apply substStar_lower_congr
+        rw [keys_lower_toS hFwf, keys_lower_toS hUwf,
+          read_keys file hf (RInv.init (some cits)) hF hall,
+          read_keys file hf (RInv.init none) hU init_want_none]
+        rfl
+      · intro c _
+        refine ⟨hview c (hall c), ?_⟩
+        intro x _
+        rw [hhasU, has_toS hFwf, (bind_of_map_fields (hFget x (hall x))).2]
+    · -- no wildcard: the ordering proviso is needed
+      have hnostar : Spec.star ∉ cits := by
+        intro hm
+        apply hstar
+        exact List.any_eq_true.2 ⟨_, hm, keq_refl _⟩
+      have hprov' : ∀ c0 ∈ cits, ∀ p, firstOcc file c0 = some p → ∀ x, p.2.fields.getItem Pybtex.xrefName = some x →
+          (cited cits x = true ∨ (firstOcc file x).isSome = false ∨ laterOccurs cits x [] (file.map rawToS) = true) := by
+        intro c0 hc0 p hp x hx
+        unfold proviso at hprov
+        have hcont : cits.contains Spec.star = false := by
+          rw [Bool.eq_false_iff]; intro h'; exact hnostar (by simpa using h')
+        rw [hcont, Bool.false_or, List.all_eq_true] at hprov
+        have := hprov c0 hc0
+        rw [find_map_rawToS, hp] at this
+        simp only [Option.map_some] at this
+        have hpw : EntryWF p.2 := by
+          have := List.mem_of_find?_eq_some hp
+          exact hf p this
+        rw [rawToS_crossref hpw, hx] at this
+        simp only [Bool.or_eq_true, Bool.not_eq_true', any_map_rawToS] at this
+        rcases this with (h' | h') | h'
+        · exact Or.inl h'
+        · exact Or.inr (Or.inl h')
+        · exact Or.inr (Or.inr h')
+      apply resolve_congr
+      · rw [substStar_noStar hnostar, substStar_noStar hnostar]
+      · intro c hc
+        -- `c` is cited
+        have hcit : cited cits c = true := by
+          unfold expanded at hc
+          rw [substStar_noStar hnostar] at hc
+          obtain ⟨c1, hc1, hk⟩ := List.any_eq_true.1 hc
+          exact List.any_eq_true.2 ⟨c1, (mem_dedupFrom hc1).1, hk⟩
+        have hwc : (BibData.init (some cits)).wantEntry c = true := by rw [init_want_some, hcit]; rfl
+        refine ⟨hview c hwc, ?_⟩
+        intro x hx
+        rw [hhasU, has_toS hFwf]
+        -- the entry that counts for `c`
+        rw [xrefOf_toS hFwf, (bind_of_map_fields (hFget c hwc)).1] at hx
+        cases hfo : firstOcc file c with
+        | none => rw [hfo] at hx; cases hx
+        | some p =>
+          rw [hfo] at hx
+          simp only [Option.bind_some] at hx
+          obtain ⟨c0, hc0, hk⟩ := List.any_eq_true.1 hcit
+          have hfo0 : firstOcc file c0 = some p := by
+            rw [← firstOcc_congr file ((keq_iff _ _).1 hk)]; exact hfo
+          cases hocc : (firstOcc file x).isSome with
+          | false =>
+            -- no entry with that key in the file: not in the filtered database either
+            cases hFx : F.entries.getItem x with
+            | none => rfl
+            | some _ =>
+              rcases read_has file hf (RInv.init (some cits)) hF x (by simp [hFx]) with h' | h'
+              · rw [init_getItem] at h'; cases h'
+              · rw [hocc] at h'; cases h'
+          | true =>
+            rcases hprov' c0 hc0 p hfo0 x hx with h' | h' | h'
+            · have hwx : (BibData.init (some cits)).wantEntry x = true := by rw [init_want_some, h']; rfl
+              rw [(bind_of_map_fields (hFget x hwx)).2, hocc]
+            · rw [hocc] at h'; cases h'
+            · obtain ⟨f1, e, f2, hsplit, hfirst, -, hce, ⟨y, hy, hyx⟩, hocc2⟩ := laterOccurs_split h'
+              obtain ⟨g1, rest, hg, hg1, hrest⟩ := List.map_eq_append_iff.1 hsplit
+              obtain ⟨q, g2, hq, hqe, hg2⟩ := List.map_eq_cons_iff.1 hrest
+              subst hg1 hqe hg2 hq
+              have hqw : EntryWF q.2 := hf q (by rw [hg]; simp)
+              have := read_later hf (RInv.init (some cits)) hF hg
+                (fun r hr => hfirst (rawToS r) (List.mem_map.2 ⟨r, hr, rfl⟩))
+                (init_getItem _ _)
+                (by rw [init_want_some]; rw [show cited cits q.1 = true from hce]; rfl)
+                (by rw [← rawToS_crossref hqw]; exact hy) hyx
+                (by rw [← any_map_rawToS]; exact hocc2)
+              rw [this]
+  -- back to the model
+  have hmodel : ∀ {db : BibData}, DbWF db → db.addExtraCitations cits m =
+      (resolved db.toS cits m, (dangling db.toS (expanded db.toS cits)).map fun p => Report.badCrossref p.1 p.2) := by
+    intro db hdb
+    simp only [BibData.addExtraCitations, crossreferenced_spec hdb, expandWildcard_spec hdb, resolved]
+  rw [hmodel hFwf, hmodel hUwf]
+  refine ⟨hres.1, ?_⟩
+  have hrep : ∀ l : List (Str × Str),
+      (l.map fun p => Report.badCrossref p.1 p.2).map Report.lower = (l.map low2).map fun p => Report.badCrossref p.1 p.2 := by
+    intro l; simp [List.map_map, Report.lower, low2, Function.comp_def]
+  simp only [hrep, hres.2]
 
 end Pybtex
